@@ -142,7 +142,9 @@ class C11:
             '(round-robin) x thresholds drawn from the normalised distances the loop compares (exact ties), their nextafter '
             'neighbours and a grid, each with a second threshold t2 >= t (monotonicity on the implementation); '
             'non-trivial = at least 2 clusters and (an exact tie distance == t or a cluster of size >= 3); '
-            'distinct by (linkage, xs, t, t2); a malformed stream (n < 2, non-increasing x, t <= 0) is judged outside the domain')
+            'distinct by (linkage, xs, t, t2); a same-object stream (about 1 case in 6): ONE points buffer serves 3-5 calls (any linkage, '
+            'varying t), refilled IN PLACE by a sibling x sequence between some calls, every call judged on the contents it was given, '
+            'the buffer compared with its snapshot after every call; a malformed stream (n < 2, non-increasing x, t <= 0) is judged outside the domain')
     assumptions = ['x strictly increasing, n >= 2, t > 0 (judged per case; others are counted as outside the domain)',
                    'int64 inputs have |x| < 2^50 so the integer arithmetic NumPy performs is exact in binary64']
     trusted = ['modelled: clustering.single_linkage / complete_linkage / centroid_linkage / average_linkage; '
@@ -171,6 +173,25 @@ class C11:
                 cases.append({'xs': xs, 'lk': lk, 't': t, 't2': t2, 'family': fam, 'tmode': tmode,
                               'dtype': 'int' if (isint and k % 3 == 0) else 'float'})
                 k += 1
+        # same-object multi-call stream (about one case in six): ONE points buffer serves 3-5 calls (any linkage, varying t),
+        # refilled in place by a sibling x sequence of the same length between some calls; every call is judged against the
+        # model on the contents the buffer held at that call, and the buffer is compared with its snapshot after every call
+        nseq = len(cases) // 6
+        for m in range(nseq):
+            n = rng.randint(2, min(nmax, 24))
+            seqs = [xs_family(rng, n, rng.choice(FAMS[:6])) for _ in range(rng.randint(2, 3))]
+            steps, cur = [], 0
+            for j in range(rng.randint(3, 5)):
+                if j > 0 and rng.random() < 0.55:
+                    cur = rng.choice([q for q in range(len(seqs)) if q != cur])
+                lk = rng.choice(LINKS)
+                steps.append({'lk': lk, 'seq': cur, 't': pick_t(rng, lk, seqs[cur])[0]})
+            if len({st['seq'] for st in steps}) < 2:
+                steps[-1]['seq'] = (steps[-1]['seq'] + 1) % len(seqs)
+                steps[-1]['t'] = pick_t(rng, steps[-1]['lk'], seqs[steps[-1]['seq']])[0]
+            isint = all(float(x).is_integer() and abs(x) < 2 ** 50 for q in seqs for x in q)
+            cases.append({'kind': 'seq', 'seqs': seqs, 'steps': steps, 'family': 'sameobject',
+                          'dtype': 'int' if (isint and m % 2 == 0) else 'float'})
         # malformed stream: never a verdict, only model-vs-code bookkeeping where the domain ends
         for j in range({'quick': 24, 'search': 8, 'thorough': 200}.get(tier, 24)):
             lk = LINKS[j % 4]
@@ -198,6 +219,27 @@ class C11:
         import numpy as np
         import kneeliverse.clustering as cl
         c = dict(c)
+        if c.get('kind') == 'seq':
+            def arr(xs):
+                if c['dtype'] == 'int':
+                    return np.array([[int(x), 0] for x in xs], dtype=np.int64).reshape(len(xs), 2)
+                return np.array([[x, 0.5] for x in xs], dtype=float).reshape(len(xs), 2)
+            snaps = [arr(q) for q in c['seqs']]
+            cur = c['steps'][0]['seq']
+            buf = snaps[cur].copy()                      # THE one points object every call receives
+            outs, intact = [], True
+            for st in c['steps']:
+                if st['seq'] != cur:
+                    cur = st['seq']
+                    buf[:] = snaps[cur]                  # refill in place
+                r = call(getattr(cl, st['lk'] + '_linkage'), buf, st['t'])
+                outs.append(as_labels(r[1]) if r[0] == 'ok' else None)
+                if not (np.array_equal(buf, snaps[cur]) and buf.dtype == snaps[cur].dtype):
+                    intact = False
+                    buf[:] = snaps[cur]
+            c['outs'] = outs
+            c['intact'] = intact
+            return c
         f = getattr(cl, c['lk'] + '_linkage')
         xs = c['xs']
         if c['dtype'] == 'int':
@@ -211,6 +253,10 @@ class C11:
         return c
 
     def emit(self, c):
+        if c.get('kind') == 'seq':
+            outs = c.get('outs') or [None] * len(c['steps'])
+            return 'CLinkSeq %s %s' % (clist(['(%s, %s, %s, %s)' % (CTOR[st['lk']], cfls(c['seqs'][st['seq']]), fl(st['t']), copt(o, cnats))
+                                               for st, o in zip(c['steps'], outs)]), cbool(c.get('intact', False)))
         return 'CLink %s %s %s %s %s %s' % (CTOR[c['lk']], cfls(c['xs']), fl(c['t']), fl(c['t2']),
                                             copt(c.get('out'), cnats), copt(c.get('out2'), cnats))
 
@@ -223,6 +269,14 @@ class C11:
         return tie, (max(labels) + 1 if labels else 0), (max(sizes.values()) if sizes else 0)
 
     def nontrivial_key(self, c):
+        if c.get('kind') == 'seq':
+            if not c.get('outs') or any(o is None for o in c['outs']):
+                return None
+            # non-trivial: some call's labels differ from what the previous contents of the buffer would have given
+            for a, b in zip(c['steps'], c['steps'][1:]):
+                if a['seq'] != b['seq'] and observed(b['lk'], c['seqs'][a['seq']], b['t'])[1] != observed(b['lk'], c['seqs'][b['seq']], b['t'])[1]:
+                    return ('seq', str(c['seqs']), str(c['steps']))
+            return None
         if c['family'] == 'malformed' or c.get('out') is None:
             return None
         tie, ncl, big = self._stats(c)
@@ -231,6 +285,9 @@ class C11:
         return None
 
     def classify(self, c):
+        if c.get('kind') == 'seq':
+            return {'family': 'sameobject', 'seq_calls': len(c['steps']), 'dtype': c['dtype'],
+                    'seq_refills': sum(1 for a, b in zip(c['steps'], c['steps'][1:]) if a['seq'] != b['seq'])}
         if c['family'] == 'malformed':
             return {'family': 'malformed'}
         tie, ncl, big = self._stats(c)
@@ -239,6 +296,8 @@ class C11:
                 'fewer_clusters_at_t2': (c.get('out') and c.get('out2') and max(c['out2']) < max(c['out'])) and True or False}
 
     def shrink(self, c):
+        if c.get('kind') == 'seq':
+            return [dict(c, steps=c['steps'][:j] + c['steps'][j + 1:]) for j in range(len(c['steps'])) if len(c['steps']) > 1]
         out = []
         xs = c['xs']
         for j in range(len(xs)):
@@ -253,9 +312,22 @@ class C11:
         return out
 
     def sample(self, c):
+        if c.get('kind') == 'seq':
+            return {k: c[k] for k in ['kind', 'seqs', 'steps', 'dtype', 'outs', 'intact'] if k in c}
         return {k: c[k] for k in ['lk', 'xs', 't', 't2', 'dtype', 'family', 'tmode', 'out', 'out2'] if k in c}
 
     def describe(self, c):
+        if c.get('kind') == 'seq':
+            mk = 'np.array([[int(x), 0] for x in q], dtype=np.int64)' if c['dtype'] == 'int' else 'np.array([[x, 0.5] for x in q])'
+            lines = ['import numpy as np, kneeliverse.clustering as cl', 'seqs = [%s for q in %s]' % (mk, c['seqs']),
+                     'buf = seqs[%d].copy()   # ONE points object' % c['steps'][0]['seq']]
+            cur = c['steps'][0]['seq']
+            for st in c['steps']:
+                if st['seq'] != cur:
+                    cur = st['seq']
+                    lines.append('buf[:] = seqs[%d]   # refill in place' % cur)
+                lines.append('print(cl.%s_linkage(buf, %r), np.array_equal(buf, seqs[%d]))' % (st['lk'], st['t'], cur))
+            return '; '.join(lines)
         arr = ('np.array([[int(x), 0] for x in %s], dtype=np.int64)' if c['dtype'] == 'int' else 'np.array([[x, 0.5] for x in %s])') % c['xs']
         return 'kneeliverse.clustering.%s_linkage(%s, t) for t=%r and t=%r' % (c['lk'], arr, c['t'], c['t2'])
 
